@@ -278,17 +278,17 @@ func slice(x, lo, hi, max value) value {
 
 	l := int64(0)
 	if lo != nil {
-		l = concretizeInt(lo, "slice bound", 4096)
+		l = concretizeBound(lo, Cap, Len)
 	}
 
 	h := int64(Len)
 	if hi != nil {
-		h = concretizeInt(hi, "slice bound", 4096)
+		h = concretizeBound(hi, Cap, Len)
 	}
 
 	m := int64(Cap)
 	if max != nil {
-		m = concretizeInt(max, "slice bound", 4096)
+		m = concretizeBound(max, Cap, Len)
 	}
 
 	switch x := x.(type) {
